@@ -53,6 +53,10 @@ func Short(path string) string {
 
 // shorten replaces every occurrence of the module path in a rendered name.
 func shorten(s string) string {
+	return canonTypeName(shortenRaw(s))
+}
+
+func shortenRaw(s string) string {
 	s = strings.ReplaceAll(s, ModulePath+"/", "")
 	s = strings.ReplaceAll(s, ModulePath+".", "fsutil.")
 	s = strings.ReplaceAll(s, ModulePath, "fsutil")
